@@ -24,7 +24,7 @@ RULE = ('cases: seeded histories of <=60 ops (join, leave, re-join, attach, deta
 ASSUMPTIONS = ['component classes use identity equality; each component instance belongs to one agent',
                'PositionComponent managed by spatial worlds is outside the claim', 'F1/F2/F3/F6 are known findings (not repaired)']
 FLOORS = {'quick': {'listing_comparisons': 20000, 'classA_histories': 400, 'joins': 3000, 'leaves': 1500, 'rejoins': 500,
-                    'empty_answers': 3000, 'leave_shared_type': 500, 'strict_keyerror': 1000, 'migrations': 300,
+                    'empty_answers': 3000, 'leave_shared_type': 500, 'strict_keyerror': 1000, 'migrations': 300, 'refused_offmap_joins': 200,
                     'reach:Core.SystemManager.register_component': 2000, 'reach:Core.SystemManager.deregister_component': 1000},
           'thorough': {'listing_comparisons': 1000000, 'classA_histories': 40000}}
 EXHAUSTIVE = {}
@@ -198,6 +198,18 @@ def case_history(ctx, case):
             if any(b.real.id == a.real.id for b in mm.residents):
                 continue        # id taken there (duplicate adds are C04's subject)
             env = mm.real.environment
+            if mm.kind != 'plain' and rng.random() < 0.2:
+                # a join that the world refuses (off the map) must leave the listings untouched
+                try:
+                    env.add_agent(a.real, -1, 0, 0)
+                except Exception:  # noqa
+                    ctx.count('refused_offmap_joins')
+                    trace.append(f'refused off-map join {a.real.id}/{mm.name}')
+                else:
+                    raise CaseViolation('off-map placement accepted', world=mm.kind)
+                d0 = observe(ctx, models, types, step)
+                if d0 and cls == 'A':
+                    fail('after a refused off-map join', d0)
             if mm.kind == 'plain':
                 env.add_agent(a.real)
             else:
